@@ -97,6 +97,9 @@ struct Ops {
 		int code(int a, int b, int c) const { return static_cast<int>(gen::mix(seed, static_cast<uint64_t>((a * C::R + b) * C::R + c)) % C::R); }
 		Data ApplyOperation(const Data& a, const Data& b, const Data& c) { return C::enc(code(C::dec(a), C::dec(b), C::dec(c))); }
 	};
+	struct Ite : public VATA::MTBDDPkg::Apply3Functor<Ite, Data, Data, Data, Data> {
+		Data ApplyOperation(const Data& sel, const Data& hi, const Data& lo) { return C::dec(sel) == 1 ? hi : lo; }
+	};
 	struct V1 : public VATA::MTBDDPkg::VoidApply1Functor<V1, Data> {
 		std::set<int> seen;
 		void ApplyOperation(const Data& a) { seen.insert(C::dec(a)); }
@@ -119,14 +122,19 @@ struct Ops {
 	int nextGroup = 0;
 	std::set<std::string> ops;
 	static constexpr size_t MAXP = 7;
+	// functor OBJECTS are re-used across calls, as library code does (every call must start from a clean cache)
+	F1 f1_; F2 f2_; F3 f3_; F2 projMax_, projMin_; Ite ite_;
+	bool projected = false;
 
 	Ops(eng::Ctx& c, bool lifetimeMode) : ctx(c), lifetime(lifetimeMode) {}
 
+	size_t lastPut = 0;
 	void put(MT&& m, const Table& t, int group, uint32_t sel)
 	{
 		if (t.distinct() >= 3) threeLeaves = true;
-		if (pool.size() < MAXP) { pool.push_back(H{std::unique_ptr<MT>(new MT(std::move(m))), t, group}); return; }
+		if (pool.size() < MAXP) { pool.push_back(H{std::unique_ptr<MT>(new MT(std::move(m))), t, group}); lastPut = pool.size() - 1; return; }
 		size_t i = sel % pool.size();
+		lastPut = i;
 		pool[i].m.reset(new MT(std::move(m)));     // the old handle is destroyed here
 		pool[i].t = t; pool[i].group = group;
 	}
@@ -164,6 +172,32 @@ struct Ops {
 		ctx.count("invariant_checks");
 	}
 
+	// the canonical MTBDD of a truth table, rebuilt through constants and if-then-else applies only
+	MT canonical(const Table& t, int var, int base)
+	{
+		if (var < 0) return MT(C::enc(t.v[static_cast<size_t>(base)]));
+		bool same = true;
+		for (int x = 0; x < (1 << var) && same; ++x) if (t.v[static_cast<size_t>(base | x)] != t.v[static_cast<size_t>(base | x | (1 << var))]) same = false;
+		if (same) return canonical(t, var - 1, base);
+		MT lo = canonical(t, var - 1, base), hi = canonical(t, var - 1, base | (1 << var));
+		std::string cb(static_cast<size_t>(NV), 'X');
+		cb[static_cast<size_t>(var)] = '1';
+		MT sel(SymbolicVarAsgn(cb), C::enc(1), C::enc(0));
+		return ite_(sel, hi, lo);
+	}
+
+	// a handle produced by a node-constructing operation must BE the canonical MTBDD of its function
+	void check_canonical(const H& h, const std::string& after)
+	{
+		eng::LibSection ls(ctx, "mtbdd:canonical-rebuild");
+		Table t0 = h.t;
+		MT c = canonical(t0, NV - 1, 0);
+		for (int x = 0; x < NX; x += 7)
+			if (C::dec(c.GetValue(total(x))) != h.t.v[static_cast<size_t>(x)]) { ctx.machinery_error("canonical rebuild denotes another function"); return; }
+		if (!(c == *h.m)) fail("mtbdd:canonicity:not-canonical:" + after, "the result of " + after + " denotes the right function but is not equal to the MTBDD rebuilt for that function");
+		ctx.count("canonical_rebuilds");
+	}
+
 	void check_paths(const H& h)
 	{
 		eng::LibSection ls(ctx, "mtbdd:GetPaths");
@@ -192,7 +226,7 @@ struct Ops {
 		uint32_t op = r[0] % 16;
 		if (pool.empty() && op >= 3) op = op % 3;
 		// lifetime mode (C18): only the operations the property names (construction, copy, assignment, apply, destruction)
-		if (lifetime && op >= 8 && op <= 11) op = 3 + (op - 8);
+		if (lifetime && op >= 9 && op <= 11) op = 3 + (op - 8);
 		auto pick = [&](uint32_t v) { return static_cast<size_t>(v % pool.size()); };
 		std::string what;
 		switch (op) {
@@ -219,7 +253,7 @@ struct Ops {
 			case 3: {
 				what = "apply1";
 				size_t i = pick(r[1]);
-				F1 f; f.seed = r[2];
+				F1& f = f1_; f.seed = r[2];
 				log << step << ":apply1(m" << i << ") ";
 				Table t; t.def = f.code(pool[i].t.def);
 				for (int x = 0; x < NX; ++x) t.v[static_cast<size_t>(x)] = f.code(pool[i].t.v[static_cast<size_t>(x)]);
@@ -230,7 +264,7 @@ struct Ops {
 			case 4: case 5: case 6: {
 				what = "apply2";
 				size_t i = pick(r[1]), j = pick(r[2]);
-				F2 f; f.seed = r[3]; f.kind = static_cast<int>(r[4] % 4 == 0 ? 1 : (r[4] % 4 == 1 ? 2 : 0));
+				F2& f = f2_; f.seed = r[3]; f.kind = static_cast<int>(r[4] % 4 == 0 ? 1 : (r[4] % 4 == 1 ? 2 : 0));
 				log << step << ":apply2(m" << i << ",m" << j << ",kind" << f.kind << ") ";
 				if (pool[i].group == pool[j].group) sharedApply = true;
 				Table t; t.def = f.code(pool[i].t.def, pool[j].t.def);
@@ -244,7 +278,7 @@ struct Ops {
 			case 7: {
 				what = "apply3";
 				size_t i = pick(r[1]), j = pick(r[2]), k = pick(r[3]);
-				F3 f; f.seed = r[4];
+				F3& f = f3_; f.seed = r[4];
 				log << step << ":apply3(m" << i << ",m" << j << ",m" << k << ") ";
 				if (pool[i].group == pool[j].group || pool[j].group == pool[k].group) sharedApply = true;
 				Table t; t.def = f.code(pool[i].t.def, pool[j].t.def, pool[k].t.def);
@@ -257,7 +291,9 @@ struct Ops {
 				what = "project";
 				size_t i = pick(r[1]);
 				const uint32_t mask = r[2] % 64;
-				F2 f; f.kind = 1 + static_cast<int>(r[3] % 2);
+				projMax_.kind = 1; projMin_.kind = 2;
+				F2& f = (r[3] % 2) ? projMin_ : projMax_;
+				projected = true;
 				log << step << ":project(m" << i << ",vars" << mask << (f.kind == 1 ? ",max) " : ",min) ");
 				Table t; t.def = pool[i].t.def;
 				for (int x = 0; x < NX; ++x) {
@@ -364,6 +400,9 @@ struct Ops {
 		ops.insert(what);
 		check_all(what);
 		if (!failed && !pool.empty() && what != "destroy" && what != "void-apply") check_paths(pool[(r[6]) % pool.size()]);
+		if (!failed && !lifetime && lastPut < pool.size() &&
+			(what == "project" || what == "rename" || what == "extend" || what == "prefix" || what == "construct" || (r[6] / 8) % 4 == 0))
+			check_canonical(pool[lastPut], what);
 	}
 };
 
